@@ -639,7 +639,13 @@ def history_line(rng, nt, hist, with_ftime):
 
 def check(run):
     run.prove(MODULE, THEOREMS)
-    run.source_tie(['SrcTrack'], 'GeoVerif.Props.C17Src', ['GV.C17Src.' + t for t in ('init_eq', 'getitem_eq', 'hasDupLoop_eq', 'hasDup_eq', 'src_hasDup_iff', 'src_slice_unbounded')])
+    run.source_tie(['SrcTrack'], 'GeoVerif.Props.C17Src', ['GV.C17Src.' + t for t in (
+        'init_eq', 'getitem_eq', 'hasDupLoop_eq', 'hasDup_eq', 'src_hasDup_iff', 'src_slice_unbounded',
+        # round 2: the rest of the class
+        'copy_eq', 'first_eq', 'last_eq', 'startT_eq', 'endT_eq', 'timeStartDiffs_eq', 'centroidDistances_eq',
+        'eqTrack_eq', 'eqOther_eq', 'eq_eq_eqTrack', 'src_eq_refl', 'filterByTime_eq', 'ddAppend_eq', 'dictOf_eq', 'convolveLoop2_eq',
+        'convolveLoop1_eq', 'convolve_eq', 'journeysLoop_eq', 'journeys_eq', 'src_ops_keep_order', 'src_slice_exact',
+        'src_journeys_chain', 'src_convolve_nodup', 'src_start_le', 'src_timeStartDiffs_nonneg')])
     rng = run.rng
 
     def tag(ln, a):
